@@ -422,6 +422,8 @@ def run(rep: vlib.Reporter, tier: str, seed: int) -> None:
         "modelled, not verified: DataTypeValidator.validate control flow, mlodaAPI._process_features strict propagation, "
         "Engine.set_data_type (hand-written Model/Validate.v tied by exhaustive correspondence)"]
     found_input = False
+    from harness import srctie      # source-text tie (Props/SrcTie.v): the literal type sets read from the source text = the tables
+    found_input = (not srctie.check(rep)) or found_input
 
     # (a)
     vc = validator_cases()
@@ -573,6 +575,10 @@ def run(rep: vlib.Reporter, tier: str, seed: int) -> None:
 
 def replay(path: str) -> int:
     r = json.load(open(path))["replay"]
+    if r.get("kind") == "srctie":
+        from harness import srctie
+        srctie.replay(r, show=True)
+        return 0
     if r.get("kind") == "e2e":
         obs = e2e_one(r["fw"], r["declared"], r["atype"], r["mode"], r["mix"])
         print("replay e2e:", {k: r[k] for k in ("fw", "declared", "atype", "mode", "mix")}, "->", obs, "(recorded:", r.get("obs"), ")")
